@@ -26,6 +26,7 @@ func checkC20(r *Run) {
 	r.Rule("C20.R2.filter", "every StreamerResponse with a frame sent by streamer.Flow carries rf.frame.KeepKeys(s.Channels) and is sent only when that frame is non-empty", 2)
 	r.Rule("C20.R3.pairing", "streamer.Flow defers the disconnect function of relay.connect inside the goroutine it starts; disconnect starts draining before delta.Disconnect and waits for the drain afterwards", 3)
 	r.Rule("C20.R4.confine", "DynamicDeltaMultiplier.Source.Out is accessed only in functions reachable solely from DynamicDeltaMultiplier.Flow; Connect and Disconnect only send on the connection channels", 4)
+	r.Rule("C20.R6.own", "a streamer's subscribed key set is only ever replaced as a whole by a value not built on the old slice: the initial slice belongs to the caller's configuration and may be shared between streamers", 1)
 	r.Rule("C20.R5.rearm", "AbstractMultiSource.SendToEachWithTimeout sends inside a select with ctx.Done and the timer, and the timer case re-arms the timer before the next send", 2)
 
 	checkRelayEntry(r, p)
@@ -34,6 +35,60 @@ func checkC20(r *Run) {
 	checkConnectPairing(r, p)
 	checkFanoutConfinement(r, p)
 	checkRearm(r, p)
+	checkSubscriptionOwnership(r, p)
+}
+
+// checkSubscriptionOwnership decides C20.R6: the streamer's key set starts out as the
+// caller's StreamerConfig.Channels slice, which several streamers may share. It may be
+// replaced as a whole but never written in place (index store, append into it, reslice
+// to zero and refill): that rewrites the subscription of every sibling streamer.
+func checkSubscriptionOwnership(r *Run, p *Prog) {
+	field := p.FieldOf("cesium", "StreamerConfig", "Channels")
+	if field == nil {
+		r.Undecide("C20.R6: cesium.StreamerConfig.Channels not found")
+		return
+	}
+	n := 0
+	seen := map[string]int{}
+	for _, fn := range p.FuncsOfPkg("cesium") {
+		if fn.Body == nil {
+			continue
+		}
+		inspectNoLit(fn.Body, func(x ast.Node) bool {
+			st, ok := x.(ast.Stmt)
+			if !ok || !isStoreTo(fn, st, field) {
+				return true
+			}
+			n++
+			good, why := false, "in-place write"
+			if as, ok := st.(*ast.AssignStmt); ok && len(as.Lhs) == 1 && len(as.Rhs) == 1 {
+				if sel, ok := ast.Unparen(as.Lhs[0]).(*ast.SelectorExpr); ok && fieldVar(fn, sel) == field {
+					// whole-value replacement: the new value must not be built on the old storage
+					reuses := false
+					ast.Inspect(as.Rhs[0], func(y ast.Node) bool {
+						if s2, ok := y.(*ast.SelectorExpr); ok && fieldVar(fn, s2) == field && types.ExprString(s2.X) == types.ExprString(sel.X) {
+							reuses = true
+						}
+						return true
+					})
+					good = !reuses
+					if reuses {
+						why = "the new key set is built on the old slice's storage (" + types.ExprString(as.Rhs[0]) + ")"
+					}
+				}
+			}
+			key := "write of the streamer's subscribed key set in " + fn.Top().Name
+			seen[key]++
+			if seen[key] > 1 {
+				key = fmt.Sprintf("%s #%d", key, seen[key])
+			}
+			r.Ob("C20.R6.own", key, posOf(p, st), good, why+": the slice is the caller's configuration value and is shared by every streamer opened from it")
+			return true
+		})
+	}
+	if n < 1 {
+		r.Undecide("C20.R6: no write of StreamerConfig.Channels found (re-subscription lost its anchor)")
+	}
 }
 
 func namedTypeIs(t types.Type, pkgSuffix, name string) bool {
